@@ -523,6 +523,70 @@ def run(ctx):
                                 badv = badv or "it requires %d bytes although the %s header has %d: a payload that is just its header (no data) is turned invalid" % (need, cls, hsz)
         res.check(badv is None, "C04-R3", "invalid-only-for-protocol-reasons:%s" % cls, val.loc, "the validator looks at nothing but the size, %s" % (sorted(ALLOWED[cls]) or "no header field"),
                   "%s::isValidPayload marks payloads invalid for a reason the protocol does not give: %s" % (cls, badv))
+    # ... and an enumerated header field is held against a payload only when its value is none of the enumerators the API defines: every
+    # defined value (interface status `disabled`, sample type `aInt32`, ...) is accepted
+    for cls, getter in (("AnalogPayload", "getSampleDt"), ("InterfacePayload", "getInterfaceStatus")):
+        val = c03.find_method(fb, NS + cls, "isValidPayload")
+        gq = [c for c in val.calls() if (callee_name(c) or "").endswith("::Header::" + getter)]
+        if not gq:
+            continue  # the validator does not look at the field at all: nothing is rejected for it
+        en_name = (gq[0].get("t") or {}).get("enum")
+        if not en_name:
+            raise Broken("%s::%s does not return an enumeration" % (cls, getter))
+        en = fb.enum(en_name)
+
+        def ev(e, v, depth=0):
+            """value of expression e when the getter yields v; None = unknown"""
+            e = strip_all_casts(facts.expand(val, e))
+            cv = const_value(e)
+            if cv is not None:
+                return cv
+            k = e.get("k")
+            if k == "call" and (callee_name(e) or "").endswith("::Header::" + getter):
+                return v
+            if k == "call" and e.get("op") in ("==", "!=", "<", "<=", ">", ">=") and len(([e["obj"]] if "obj" in e else []) + e.get("args", [])) == 2:
+                ops = ([e["obj"]] if "obj" in e else []) + e.get("args", [])
+                e = {"k": "bin", "op": e["op"], "l": ops[0], "r": ops[1]}
+                k = "bin"
+            if k == "un" and e.get("op") == "!":
+                x = ev(e["e"], v, depth + 1)
+                return None if x is None else int(not x)
+            if k == "bin" and depth < 8:
+                a, b = ev(e["l"], v, depth + 1), ev(e["r"], v, depth + 1)
+                op = e["op"]
+                if op == "&&":
+                    return 0 if (a == 0 or b == 0) else (1 if (a is not None and b is not None) else None)
+                if op == "||":
+                    return 1 if (a not in (None, 0) or b not in (None, 0)) else (0 if (a == 0 and b == 0) else None)
+                if a is None or b is None:
+                    return None
+                return {"==": int(a == b), "!=": int(a != b), "<": int(a < b), "<=": int(a <= b), ">": int(a > b), ">=": int(a >= b)}.get(op)
+            return None
+        mfv = MustFacts(val)
+        rejected = []
+        for enr in en["enumerators"]:
+            v = enr["value"]
+            accepted = False
+            for r in val.returns():
+                e = r.get("e")
+                if const_value(e) == 0:
+                    continue
+                okr = ev(e, v) != 0
+                for a in mfv.at(r):
+                    if a[0] == "cmp":
+                        x = ev({"k": "bin", "op": a[2], "l": a[4], "r": a[5]}, v)
+                    else:
+                        x = ev(a[3], v)
+                        x = None if x is None else int(bool(x) == a[2])
+                    if x == 0:
+                        okr = False
+                if okr:
+                    accepted = True
+            if not accepted:
+                rejected.append(enr["name"])
+        res.check(not rejected, "C04-R3", "defined-values-accepted:%s:%s" % (cls, getter), val.loc, "every enumerator of %s is accepted" % en_name.split("::")[-1],
+                  "%s::isValidPayload rejects payloads whose %s is %s, a value the API defines: well-formed messages are marked invalid" %
+                  (cls, getter[3:], ", ".join(rejected)))
     rule_reported_length(fb, res)
     rule_typed_ctor_keeps_size(fb, res, "C04-R6")
     # ---- R5 positions
